@@ -173,24 +173,87 @@ func runQRBitstream() {
 		return c
 	}
 	segs := []seg{
-		{"numeric", func(w *bitw, v int) { w.put(1, 4); w.put(8, cc(v, 10, 12, 14)); w.put(12, 10); w.put(345, 10); w.put(67, 7) }},
+		{"numeric", func(w *bitw, v int) {
+			w.put(1, 4)
+			w.put(8, cc(v, 10, 12, 14))
+			w.put(12, 10)
+			w.put(345, 10)
+			w.put(67, 7)
+		}},
 		{"numeric-bad", func(w *bitw, v int) { w.put(1, 4); w.put(3, cc(v, 10, 12, 14)); w.put(1001, 10) }},
-		{"alnum", func(w *bitw, v int) { w.put(2, 4); w.put(5, cc(v, 9, 11, 13)); w.put(45*10+11, 11); w.put(45*44+44, 11); w.put(38, 6) }},
+		{"alnum", func(w *bitw, v int) {
+			w.put(2, 4)
+			w.put(5, cc(v, 9, 11, 13))
+			w.put(45*10+11, 11)
+			w.put(45*44+44, 11)
+			w.put(38, 6)
+		}},
 		{"alnum-bad", func(w *bitw, v int) { w.put(2, 4); w.put(2, cc(v, 9, 11, 13)); w.put(2047, 11) }},
-		{"byte", func(w *bitw, v int) { w.put(4, 4); w.put(3, cc(v, 8, 16, 16)); w.put(0x41, 8); w.put(0xe9, 8); w.put(0x00, 8) }},
+		{"byte", func(w *bitw, v int) {
+			w.put(4, 4)
+			w.put(3, cc(v, 8, 16, 16))
+			w.put(0x41, 8)
+			w.put(0xe9, 8)
+			w.put(0x00, 8)
+		}},
 		{"kanji", func(w *bitw, v int) { w.put(8, 4); w.put(2, cc(v, 8, 10, 12)); w.put(0x0D9F, 13); w.put(0x1AAA, 13) }},
-		{"hanzi", func(w *bitw, v int) { w.put(13, 4); w.put(1, 4); w.put(2, cc(v, 8, 10, 12)); w.put(0x0D9F, 13); w.put(0x1AAA, 13) }},
+		{"hanzi", func(w *bitw, v int) {
+			w.put(13, 4)
+			w.put(1, 4)
+			w.put(2, cc(v, 8, 10, 12))
+			w.put(0x0D9F, 13)
+			w.put(0x1AAA, 13)
+		}},
 		{"hanzi-subset2", func(w *bitw, v int) { w.put(13, 4); w.put(2, 4); w.put(1, cc(v, 8, 10, 12)); w.put(0x0D9F, 13) }},
-		{"eci-byte", func(w *bitw, v int) { w.put(7, 4); w.put(26, 8); w.put(4, 4); w.put(2, cc(v, 8, 16, 16)); w.put(0xC3, 8); w.put(0xA9, 8) }},
-		{"eci-unregistered", func(w *bitw, v int) { w.put(7, 4); w.put(14, 8); w.put(4, 4); w.put(1, cc(v, 8, 16, 16)); w.put(0x41, 8) }},
-		{"fnc1-first-alnum", func(w *bitw, v int) { w.put(3, 4); w.put(2, 4); w.put(3, cc(v, 9, 11, 13)); w.put(45*37+37, 11); w.put(37, 6) }},
-		{"fnc1-second", func(w *bitw, v int) { w.put(9, 4); w.put(165, 8); w.put(1, 4); w.put(2, cc(v, 10, 12, 14)); w.put(42, 7) }},
-		{"structured-append", func(w *bitw, v int) { w.put(5, 4); w.put(0x12, 8); w.put(0xAB, 8); w.put(4, 4); w.put(1, cc(v, 8, 16, 16)); w.put(0x42, 8) }},
+		{"eci-byte", func(w *bitw, v int) {
+			w.put(7, 4)
+			w.put(26, 8)
+			w.put(4, 4)
+			w.put(2, cc(v, 8, 16, 16))
+			w.put(0xC3, 8)
+			w.put(0xA9, 8)
+		}},
+		{"eci-unregistered", func(w *bitw, v int) {
+			w.put(7, 4)
+			w.put(14, 8)
+			w.put(4, 4)
+			w.put(1, cc(v, 8, 16, 16))
+			w.put(0x41, 8)
+		}},
+		{"fnc1-first-alnum", func(w *bitw, v int) {
+			w.put(3, 4)
+			w.put(2, 4)
+			w.put(3, cc(v, 9, 11, 13))
+			w.put(45*37+37, 11)
+			w.put(37, 6)
+		}},
+		{"fnc1-second", func(w *bitw, v int) {
+			w.put(9, 4)
+			w.put(165, 8)
+			w.put(1, 4)
+			w.put(2, cc(v, 10, 12, 14))
+			w.put(42, 7)
+		}},
+		{"structured-append", func(w *bitw, v int) {
+			w.put(5, 4)
+			w.put(0x12, 8)
+			w.put(0xAB, 8)
+			w.put(4, 4)
+			w.put(1, cc(v, 8, 16, 16))
+			w.put(0x42, 8)
+		}},
 		{"terminator-then-data", func(w *bitw, v int) { w.put(0, 4); w.put(4, 4); w.put(1, 8); w.put(0x41, 8) }},
 		{"byte-count-overrun", func(w *bitw, v int) { w.put(4, 4); w.put(200, cc(v, 8, 16, 16)); w.put(0x41, 8) }},
 		{"kanji-count-overrun", func(w *bitw, v int) { w.put(8, 4); w.put(100, cc(v, 8, 10, 12)); w.put(0x0D9F, 13) }},
 		{"byte-empty", func(w *bitw, v int) { w.put(4, 4); w.put(0, cc(v, 8, 16, 16)) }},
-		{"byte-sjis-like", func(w *bitw, v int) { w.put(4, 4); w.put(4, cc(v, 8, 16, 16)); w.put(0x93, 8); w.put(0xfa, 8); w.put(0x96, 8); w.put(0x7b, 8) }},
+		{"byte-sjis-like", func(w *bitw, v int) {
+			w.put(4, 4)
+			w.put(4, cc(v, 8, 16, 16))
+			w.put(0x93, 8)
+			w.put(0xfa, 8)
+			w.put(0x96, 8)
+			w.put(0x7b, 8)
+		}},
 	}
 	type job struct {
 		s, v, nib int
@@ -986,6 +1049,57 @@ func runRows() {
 					continue
 				}
 				decodeRowAll(l, firstRow(m), "code39 "+strs[k], "Code39")
+			}
+		})
+	// reuse: ONE decoder object per kind runs through a whole sequence of rows (every row of length
+	// 1..9, then valid symbol rows and their truncations) — state left behind by a failed or
+	// successful call must not make a later call panic or return neither/both
+	reuseLen := chk.Pick(9, 12)
+	chk.Range(fmt.Sprintf("row decoders REUSED: one decoder object per kind decodes every pixel row of length 1..%d in order, then the valid rows of all nine writers, their reversals and every truncation", reuseLen), len(rowDecoders),
+		func(i int) string { return "reuse " + rowDecoders[i].name },
+		func(l *mc.Local, i int) {
+			rd := rowDecoders[i]
+			dec, ok := rd.mk().(rowDecoder)
+			if !ok {
+				return
+			}
+			one := func(b []bool, extra string) {
+				var r *gozxing.Result
+				var err error
+				row := toBitArray(b)
+				cs := rcase{Kind: "row", Target: rd.name, Bits: rowStr(b), Extra: "reused decoder object; " + extra}
+				l.Beat("")
+				pm, site := mc.Guard(func() { r, err = dec.DecodeRow(0, row, nil) })
+				outcome(l, "row-reuse/"+rd.name, pm, site, r, err, cs, false)
+			}
+			for n := 1; n <= reuseLen; n++ {
+				for v := 0; v < 1<<uint(n); v++ {
+					b := make([]bool, n)
+					for k := 0; k < n; k++ {
+						b[k] = v&(1<<uint(k)) != 0
+					}
+					one(b, "")
+				}
+			}
+			for _, w := range oneDWriters {
+				for _, c := range w.contents {
+					m, err := w.mk().Encode(c, w.f, 0, 0, nil)
+					if err != nil {
+						continue
+					}
+					base := firstRow(m)
+					one(base, "valid "+w.name)
+					rev := make([]bool, len(base))
+					for k := range base {
+						rev[len(base)-1-k] = base[k]
+					}
+					one(rev, "reversed "+w.name)
+					for cut := 1; cut < len(base); cut += 3 {
+						one(base[:cut], "prefix")
+						one(base[cut:], "suffix")
+						one(base, "valid again")
+					}
+				}
 			}
 		})
 	// bare guards: Code 39 "**" (no data), Codabar start/stop only
